@@ -128,6 +128,20 @@ reg(Spec("C10", "c10_addr.cpp", needs=("shim", "optable"),
                       "outside the buffer and the 9-bit narrowing of 16-bit steps are out of model (left to C01)",
                       "the data address 0xFFFF (the single MMIO cell of the test core) is avoided"]))
 
+reg(Spec("C08", "c08_stack.cpp", needs=("shim", "optable"),
+         cases={"quick": 30000, "thorough": 500000},
+         rule="inverse pairs executed on the real core from states expanded from a rapidcheck-generated 64-bit value (sat = sata = 1, "
+              "no active loop, nothing pending): call form {call, callr, calla axl, calla ax} x condition x return form {ret, rets "
+              "#k, reti} x cpc {0,1}, return addresses with a carry into the upper word included (full-state equality + the two "
+              "stack words); push X ; pop X for 13 push/pop families and every operand value; interrupt entry on int0-2 / "
+              "vectored with and without context switch + reti/retic; cntx s ; cntx r, banke f twice (all 64 flag sets), bankr "
+              "(4 forms) twice. Non-trivial = the pair actually moved something (taken call, non-zero pushed value, banks "
+              "differ); distinct by hash of the encoded case.",
+         assumptions=["saturation disabled, no hardware loop active, single-instruction repeat off (the property's preconditions)",
+                      "product shifter neutral for push/pop of p / Px (the pushed view is the shifted product, pop loads the raw register)",
+                      "pusha/popa restore the 32-bit view; the whole accumulator is required back only when it fits 32 bits",
+                      "operands the source itself rejects (pc, undefined ArArpSttMod codes) and whole accumulators through a 16-bit push are outside 'pushable'"]))
+
 # Properties not (yet) claimed. Kept current by hand; every id in properties.jsonl is either in SPECS or here.
 _PENDING = "check not built yet in this round; planned with property-based testing per DESIGN.md"
 NOT_APPLICABLE = [{"property_id": "C%02d" % i, "reason": _PENDING} for i in range(1, 21) if "C%02d" % i not in SPECS]
